@@ -88,6 +88,8 @@ def rule_dict_type(ctx: Ctx, repo: Repo) -> None:
             ok = isinstance(req, R) and req.kind == "comp" and not req.fields["ifs"] and req.fields["over"] in (
                 R("view", what=K("items"), of=d), d) and req.fields.get("key") == R("key_of", of=d) and \
                 req.fields["elt"] == R("typeof", of=R("value_of", of=d), limit=K(m))
+            # the same mapping filled by an unconditional loop over the items: one symbolic iteration stands for all
+            ok = ok or (isinstance(req, R) and req.kind == "dict" and req.fields["items"] == ((R("key_of", of=d), R("typeof", of=R("value_of", of=d), limit=K(m))),))
             ctx.check(ok, "R-C04.1", w, "every item of the dict becomes a field typed by get_type of its own value",
                       construct=f"{lab}: {_short(req)}")
         elif isinstance(res, R) and res.kind == "generic" and res.fields["origin"] == K("Dict"):
